@@ -1718,11 +1718,11 @@ class Cat(Funsor, metaclass=CatMeta):
             pos = 0
             for part in self.parts:
                 psize = part.inputs[self.part_name].size
-                if step > 1:
-                    pstart = ((pos - start) // step) * step - (pos - start)
-                    pstart = pstart + step if pstart < 0 else pstart
+                if pos <= start:
+                    pstart = start - pos
                 else:
-                    pstart = max(start - pos, 0)
+                    # first index at or after pos that is congruent to start
+                    pstart = (start - pos) % step
                 pstop = min(pos + psize, stop) - pos
 
                 if not (pstart >= pstop or pos >= stop or pos + psize <= start):
